@@ -87,7 +87,15 @@ impl RxCtrState {
                 self.ctr_bitmap <<= udiff;
                 self.insert(udiff - 1);
             } else {
-                self.ctr_bitmap = 0xffff;
+                // The window moved past all of its previous content. None of the counters
+                // it covers now was received yet (they are all greater than the previous
+                // maximum) - except for the previous maximum itself, when the jump is
+                // exactly one window long. Marking them as received would make a message
+                // that was merely overtaken by a later one look like a duplicate.
+                self.ctr_bitmap = 0;
+                if udiff == MSG_RX_STATE_BITMAP_LEN {
+                    self.insert(udiff - 1);
+                }
             }
             true
         } else if !is_encrypted {
